@@ -639,7 +639,11 @@ impl DbInner {
 		let might_wait_because_the_queue_is_full = self.options.with_background_thread;
 		#[cfg(not(any(test, feature = "instrumentation")))]
 		let might_wait_because_the_queue_is_full = true;
-		if might_wait_because_the_queue_is_full && queue.bytes > MAX_COMMIT_QUEUE_BYTES {
+		// Workers that failed will never shrink the queue: do not wait for them.
+		if might_wait_because_the_queue_is_full &&
+			queue.bytes > MAX_COMMIT_QUEUE_BYTES &&
+			self.bg_err.lock().is_none()
+		{
 			#[cfg(parity_db_verif)]
 			crate::verif::emit("CommitFullPark", &[queue.bytes as u64]);
 			log::debug!(target: "parity-db", "Waiting, queue size={}", queue.bytes);
@@ -1433,13 +1437,18 @@ impl DbInner {
 	fn store_err(&self, result: Result<()>) {
 		if let Err(e) = result {
 			log::warn!(target: "parity-db", "Background worker error: {}", e);
-			let mut err = self.bg_err.lock();
-			if err.is_none() {
-				*err = Some(Arc::new(e));
-				#[cfg(parity_db_verif)]
-				crate::verif::emit("StoreErr", &[]);
-				self.shutdown();
+			{
+				let mut err = self.bg_err.lock();
+				if err.is_none() {
+					*err = Some(Arc::new(e));
+					#[cfg(parity_db_verif)]
+					crate::verif::emit("StoreErr", &[]);
+					self.shutdown();
+				}
 			}
+			// Notify while holding the queue lock: a committer that has already seen a full
+			// queue but is not waiting yet holds it, and would otherwise miss the wake-up.
+			let _queue = self.commit_queue.lock();
 			self.commit_queue_full_cv.notify_all();
 			#[cfg(parity_db_verif)]
 			crate::verif::emit("StoreErrNotified", &[]);
